@@ -33,12 +33,12 @@ for d in /verif/seeded/${id}_*/; do
     applied=$((applied+1)); viol > "$tmp/cur.txt"
     new=$(comm -13 "$tmp/base.txt" "$tmp/cur.txt" | wc -l)
     if [ "$new" -gt 0 ]; then sd=$((sd+1)); lines="$lines\nSELFTEST seed $name: detected ($new new violation(s))";
-    elif [ "$expect" = "missed" ]; then lines="$lines\nSELFTEST seed $name: not detected (recorded as outside what the check decides)";
+    elif [ "$expect" = "missed" ] || [ "$expect" = "skipped" ]; then lines="$lines\nSELFTEST seed $name: not detected (recorded as outside what the check decides, or no longer a violation on the current tree)";
     else sm=$((sm+1)); lines="$lines\nSELFTEST seed $name: NOT DETECTED"; fi
     (cd "$tmp/tree" && git apply -R "$d/patch.diff" 2>/dev/null)
   else skipped=$((skipped+1)); lines="$lines\nSELFTEST seed $name: skipped (does not apply to / build on the current tree)"; fi
 done
-for d in /verif/refactors/r${id}_*/ /verif/refactors/h${id}_*/ /verif/refactors/g${id}_*/ /verif/refactors/k${id}_*/; do
+for d in /verif/refactors/r${id}_*/ /verif/refactors/h${id}_*/ /verif/refactors/g${id}_*/ /verif/refactors/k${id}_*/ /verif/refactors/m${id}_*/; do
   [ -f "$d/patch.diff" ] || continue
   name=$(basename "$d")
   if try "$d/patch.diff"; then
